@@ -59,7 +59,7 @@ def bucketNameBranch (name : Bytes) : String :=
   else if name.head?.map isLowerOrDigit != some true then "first"
   else if name.getLast?.map isLowerOrDigit != some true then "last"
   else if containsDotDot name then "dotdot"
-  else if ipAddrOk name then "ip"
+  else if (splitAll dot name).length = 4 && (splitAll dot name).all (fun g => g.all isDigit) then "ip"
   else if xnPrefix.isPrefixOf name then "xn"
   else "ok"
 
@@ -122,10 +122,13 @@ def invalidDomainClass (d : Bytes) : String :=
 /-- spec level: `a` is `b` or a sub-domain of `b` -/
 def subDomainOf (a b : Bytes) : Bool := a = b || (46 :: b).isSuffixOf a
 
-/-- spec level: some two entries of the list are the same domain or sub-domains of one another -/
-def hasOverlap : List Bytes → Bool
+/-- spec level: some two entries of the list are the same domain or sub-domains of one another;
+    `ci` = compared without regard to ASCII case (host names are case-insensitive) -/
+def hasOverlap (ci : Bool) : List Bytes → Bool
   | [] => false
-  | d :: rest => rest.any (fun o => subDomainOf d o || subDomainOf o d) || hasOverlap rest
+  | d :: rest =>
+    let f := fun x => if ci then lowerAscii x else x
+    rest.any (fun o => subDomainOf (f d) (f o) || subDomainOf (f o) (f d)) || hasOverlap ci rest
 
 /-- `uri.path()` of a path-and-query only `http::Uri`: the fragment is cut off, the path ends at
     the first `?`; an empty path reads `/` unless nothing at all is left (`Uri::has_path`) -/
@@ -320,8 +323,11 @@ def judge (fs : List String) : String :=
           | bad => if bad.all (fun d => invalidDomainClass d = "domain-port-plus-sign")
               then "domain-port-plus-sign" else "domain-invalid-accepted"
         specfail id cls "accepted a configuration with no or an invalid domain"
-      else if out = "ok" && hasOverlap ds then
+      else if out = "ok" && hasOverlap false ds then
         specfail id "multi-overlap-accepted" "accepted a configuration with overlapping domains"
+      else if out = "ok" && hasOverlap true ds then
+        specfail id "multi-overlap-case-accepted"
+          "accepted a configuration whose domains overlap once ASCII case is ignored (as host resolution ignores it)"
       else if m ≠ out then disagree id m out else agree id ("mn-" ++ out)
     | none => badline id
   | [_, id, "multi-parse", ds, host, "|", out] =>
